@@ -22,7 +22,8 @@
   the AES key-schedule memo and the Salsa20/ChaCha input block (configuration and scratch in one attribute) — harmless
   under their invariants; `Nullpadding` used as the padding class of ECB/CBC — `dec` strips `pad.padcnt` bits, a number only
   the last `enc` knows: `mode_nullpadding_dec_depends_on_history` is the kernel-checked counter-example (known finding).
-  Skein and Threefish have no model in the tree yet (correspondence level only, see the TODO hook in Model.Objects).
+  Skein keeps the chaining value `G` (overwritten by the `_initstate()` every `__call__` starts with); Threefish has no
+  scratch attribute at all (its key-schedule word lists are constructor-only configuration).
 -/
 import Model.Objects
 import Model.Gen.ObjectsG
@@ -59,9 +60,10 @@ theorem all_kinds_sound (lcap : Nat → Nat) :
     Sound BlakeO.machine Any Any Havoc ∧ Sound Blake2O.machine Any Any Havoc ∧ Sound HmacO.machine Any Any Havoc ∧
     Sound (TlshO.machine lcap) Any Any Havoc ∧ Sound NilsimsaO.machine Any Any Havoc ∧
     Sound AesO.machine Any Any AesO.Coherent ∧ Sound PureCipher.machine Any Any Havoc ∧
-    Sound ModeO.machine ModeAdm Any ModeO.Coherent ∧ Sound StreamO.machine StreamAdm StreamValid StreamInv :=
+    Sound ModeO.machine ModeAdm Any ModeO.Coherent ∧ Sound StreamO.machine StreamAdm StreamValid StreamInv ∧
+    Sound SkeinO.machine Any Any Havoc ∧ Sound ThreefishO.machine Any Any Havoc :=
   ⟨hash_sound, keccak_sound, md6_sound, blake_sound, blake2_sound, hmac_sound, tlsh_sound lcap, nilsimsa_sound, aes_sound,
-   pure_sound, mode_sound, stream_sound⟩
+   pure_sound, mode_sound, stream_sound, skein_sound, threefish_sound⟩
 
 /-! ## 2. Per kind -/
 
@@ -139,6 +141,55 @@ theorem blake2_result_depends_on_cfg (s s' : Blake2O.State) (a : Blake2O.Op) (ha
 theorem blake2_history_independent (c : Blake.Cfg) (ops : List Blake2O.Op) (p : Blake2O.Op) (hp : Blake2O.machine.probe p = true) :
     Blake2O.machine.after c ops p = Blake2O.machine.out (Blake2O.machine.init c) p :=
   history_independent' blake2_sound (fun _ _ => rfl) c trivial ops (fun _ _ => trivial) p hp trivial
+
+/-! ### Skein objects (every block size, output length, key / personalisation / public key / KDF id / nonce stage, tree parameters) -/
+
+/-- no operation of the alphabet (`__call__`, `update`, `_initstate`) — erroring ones included — changes the configuration -/
+theorem skein_cfg_preserved (s : SkeinO.State) (op : SkeinO.Op) :
+    SkeinO.machine.cfg (SkeinO.machine.next s op) = SkeinO.machine.reconf (SkeinO.machine.cfg s) op := skein_sound.cfg_preserved s op
+
+/-- a one-shot call returns the same on ALL states with the same configuration: whatever chaining value `G` an earlier
+    `update`, an earlier call or a call that raised half-way through `_initstate` left behind — or none at all -/
+theorem skein_result_depends_on_cfg (s s' : SkeinO.State) (a : SkeinO.Op) (ha : SkeinO.machine.probe a = true) (h : SkeinO.machine.cfg s = SkeinO.machine.cfg s') :
+    SkeinO.machine.out s a = SkeinO.machine.out s' a := skein_sound.result_depends_on_cfg s s' a ha trivial trivial trivial trivial h
+
+/-- after ANY history the probe returns what it returns on a fresh object -/
+theorem skein_history_independent (c : Skein.Cfg) (ops : List SkeinO.Op) (p : SkeinO.Op) (hp : SkeinO.machine.probe p = true) :
+    SkeinO.machine.after c ops p = SkeinO.machine.out (SkeinO.machine.init c) p :=
+  (history_independent_generic SkeinO.machine Any Any Havoc skein_sound c trivial ops (fun _ _ => trivial) p hp trivial).trans
+    (congrArg (fun x => SkeinO.machine.out (SkeinO.machine.init x) p) (reconfAll_id (M := SkeinO.machine) (fun _ _ => rfl) c ops))
+
+/-- … and that is the functional model `Skein.call` of the hash properties (C12, C13), in every state -/
+theorem skein_call_is_model (s : SkeinO.State) (M : List Nat) (bitlen : Option Nat) :
+    SkeinO.machine.out s (.call M bitlen) = bytesRes (Skein.call s.cfg M bitlen) := skein_call_eq s M bitlen
+
+/-- `update` is NOT a one-shot operation: it chains from `G` (so it is outside `probe`) — on a new object it raises, after
+    `_initstate()` it succeeds -/
+theorem skein_update_reads_G (c : Skein.Cfg) (M : List Nat) :
+    SkeinO.machine.out (SkeinO.init c) (.update M) = .error "AttributeError:G" := rfl
+
+/-! ### Threefish objects (no scratch state at all: the word lists `__k`, `__t` are written by the constructor only) -/
+
+/-- no operation of the alphabet — erroring ones included — changes the configuration -/
+theorem threefish_cfg_preserved (s : ThreefishO.State) (op : ThreefishO.Op) :
+    ThreefishO.machine.cfg (ThreefishO.machine.next s op) = ThreefishO.machine.reconf (ThreefishO.machine.cfg s) op := threefish_sound.cfg_preserved s op
+
+/-- `enc` / `dec` return the same on ALL states with the same configuration -/
+theorem threefish_result_depends_on_cfg (s s' : ThreefishO.State) (a : ThreefishO.Op) (ha : ThreefishO.machine.probe a = true) (h : ThreefishO.machine.cfg s = ThreefishO.machine.cfg s') :
+    ThreefishO.machine.out s a = ThreefishO.machine.out s' a := threefish_sound.result_depends_on_cfg s s' a ha trivial trivial trivial trivial h
+
+/-- after ANY history the probe returns what it returns on a fresh object -/
+theorem threefish_history_independent (c : Threefish.Ctx) (ops : List ThreefishO.Op) (p : ThreefishO.Op) (hp : ThreefishO.machine.probe p = true) :
+    ThreefishO.machine.after c ops p = ThreefishO.machine.out (ThreefishO.machine.init c) p :=
+  (history_independent_generic ThreefishO.machine Any Any Havoc threefish_sound c trivial ops (fun _ _ => trivial) p hp trivial).trans
+    (congrArg (fun x => ThreefishO.machine.out (ThreefishO.machine.init x) p) (reconfAll_id (M := ThreefishO.machine) (fun _ _ => rfl) c ops))
+
+/-- the object machine's `enc`/`dec` are `Threefish(key,tweak).enc/dec` of the cipher properties (C02, C03) -/
+theorem threefish_ops_are_model (key tweak : List Nat) (c : Threefish.Ctx) (hc : Threefish.init key tweak = .ok c) (b : List Nat) :
+    ThreefishO.machine.out (ThreefishO.machine.init c) (.enc b) = bytesRes (Threefish.encrypt key tweak b) ∧
+    ThreefishO.machine.out (ThreefishO.machine.init c) (.dec b) = bytesRes (Threefish.decrypt key tweak b) := by
+  unfold Threefish.encrypt Threefish.decrypt
+  rw [hc]; exact ⟨rfl, rfl⟩
 
 /-! ### HMAC objects (the hash object is shared state) -/
 
@@ -340,11 +391,27 @@ theorem inventory_modes :
 theorem inventory_streams :
     (["Salsa20", "Chacha"].all fun cls => sameSet (ObjectsG.assigned cls) (scratchOf (fields% StreamO.State) [] [])) = true := by decide
 
-/-- kinds without a Lean object model yet (TODO hook in Model.Objects): the inventory the future state structures must
-    declare — `Skein.G`; Threefish and UBI assign nothing outside `__init__`; a `Tweak` is mutated in place; the Keccak
-    `State` object held in `_S` has `lanes` -/
+/-- Skein: `G` is the only attribute assigned outside `__init__` (`_initstate`, `update`, `_treehash`); the configuration
+    structure `Skein.Cfg` has exactly the constructor-only attributes (`C`: the configuration string computed once; `Yl`,
+    `Yf`, `Ym`: the tree parameters; `key`, `prs`, `PK`, `kdf`, `non`: the optional stages) -/
+theorem inventory_skein :
+    sameSet (ObjectsG.assigned "Skein") (scratchOf (fields% SkeinO.State) [] []) = true ∧
+    sameSet (ObjectsG.ctorOnly "Skein") (fields% Skein.Cfg) = true := by decide
+
+/-- Python's name mangling of the private attributes of class `Threefish` -/
+def mangleThreefish (f : String) : String := if ["pi", "piinv", "R", "k", "t"].contains f then "_Threefish__" ++ f else f
+
+/-- Threefish assigns nothing outside `__init__`; the context structure `Threefish.Ctx` has exactly the constructor-only
+    attributes: `K`, `T`, `Nw`, `Nr` and the private `__pi`, `__piinv`, `__R` (tables), `__k`, `__t` (extended key / tweak words) -/
+theorem inventory_threefish :
+    sameSet (ObjectsG.assigned "Threefish") (scratchOf (fields% ThreefishO.State) [] []) = true ∧
+    sameSet (ObjectsG.ctorOnly "Threefish") ((fields% Threefish.Ctx).map mangleThreefish) = true := by decide
+
+/-- helper classes that live inside one call and have no machine of their own: a `UBI` assigns nothing outside `__init__`
+    (its `G`, `Ts` are constructor arguments; every Skein operation builds its own); a `Tweak` is a `Bits` mutated in place
+    through its property setters (it is owned by the UBI that copied it); the Keccak `State` object held in `_S` has `lanes` -/
 theorem inventory_unmodelled :
-    ObjectsG.assigned "Skein" = ["G"] ∧ ObjectsG.assigned "Threefish" = [] ∧ ObjectsG.assigned "UBI" = [] ∧
+    ObjectsG.assigned "UBI" = [] ∧ ObjectsG.ctorOnly "UBI" = ["G", "Ts", "_cipherclass", "pad"] ∧
     ObjectsG.assigned "Tweak" = ["<self>"] ∧ ObjectsG.assigned "State" = ["lanes"] := by decide
 
 /-- what the configurations stand for: the attributes only constructors assign -/
@@ -360,7 +427,10 @@ theorem inventory_ctor_only :
     ObjectsG.ctorOnly "AES" = ["K", "Nb", "Nk", "Nr", "blocksize"] ∧
     ObjectsG.ctorOnly "DES" = ["K"] ∧ ObjectsG.ctorOnly "TDEA" = ["E1", "E2", "E3"] ∧ ObjectsG.ctorOnly "Serpent" = ["K", "keys"] ∧
     ObjectsG.ctorOnly "CBC" = ["IV", "_cipher", "pad"] ∧ ObjectsG.ctorOnly "Salsa20" = ["K", "dround"] ∧
-    ObjectsG.ctorOnly "Chacha" = ["K", "dround"] := by decide
+    ObjectsG.ctorOnly "Chacha" = ["K", "dround"] ∧
+    ObjectsG.ctorOnly "Skein" = ["C", "Nb", "No", "PK", "Yf", "Yl", "Ym", "kdf", "key", "non", "prs"] ∧
+    ObjectsG.ctorOnly "Threefish" = ["K", "Nr", "Nw", "T", "_Threefish__R", "_Threefish__k", "_Threefish__pi", "_Threefish__piinv",
+      "_Threefish__t"] := by decide
 
 /-- shared state outside the instances: the module-level singletons are exactly these; no function stores into a
     module-level object; no parameter has a mutable default; no class-level data attribute is ever assigned through `self` -/
@@ -383,6 +453,11 @@ example : (AesO.machine.run (AesO.init (List.range 16)) [.keyschedule])._AES__w 
 example : (NilsimsaO.machine.run (NilsimsaO.init (Nilsimsa.maketran 53)) [.update [1, 2, 3, 4, 5]]).count = 5 := by decide +kernel
 example : (ModeO.machine.run (ModeO.init { nullCfg with scheme := .pkcs7 }) [.enc [1, 2, 3]]).pad.padflag = true := by decide +kernel
 example : (KeccakO.machine.run (KeccakO.init { b := 25, w := 1, n := 12, r := 8, outlen := some 8 }) [.setrate 4]).cfg.r = 4 := by decide
+/-- a Skein-256 history leaves a chaining value behind (one `_initstate()`), and a following `update` then succeeds -/
+example : (Skein.mk 256 256 0 0 0 none none none none none).toOption.map (fun c =>
+    ((SkeinO.machine.run (SkeinO.init c) [.initstate]).G.map List.length,
+     (SkeinO.machine.out (SkeinO.machine.run (SkeinO.init c) [.initstate]) (.update [1, 2, 3])).toOption)) = some (some 32, some .none) := by
+  decide +kernel
 /-- the hypotheses of the stream theorems are inhabited: the block of a real 32-byte key -/
 example : StreamAdm { chacha := false, K := none, dround := 10, p0 := Proofs.Lemmas.StreamPoly.ofBV (List.replicate 16 (5 : BitVec 32)) } :=
   ⟨_, by decide, rfl⟩
